@@ -7,10 +7,47 @@ from typing import Dict, List, Optional, Set, Tuple
 
 from .core import AnalysisError, Report
 from .emit import Folder
-from .prog import (Program, bind_call, func_params, guards_of, inline_locals, local_assignments, parent, unparse,
+from .prog import (Program, bind_call, enclosing, func_params, guards_of, inline_locals, local_assignments, parent, stmt_of, unparse,
                    walk_no_nested)
 
 SCRIPTS = {"pybind": "scripts/pybind_wrap.py", "matlab": "scripts/matlab_wrap.py"}
+
+
+def _name_list(fn, e):
+    """How the list handed over as `submodules` is computed: (element expression with the iteration variable written
+    _SRC, text of what is iterated, form) - for a local list filled by append in a loop, a comprehension, or a local bound
+    to one; (None, '', reason) when it is none of these."""
+    if e is None:
+        return None, "", "not passed"
+
+    def norm(elt, var):
+        t = clone_norm(fn, elt)
+        return t.replace(var, "_SRC")
+
+    def clone_norm(fn_, x):
+        return unparse(inline_locals(fn_, x))
+
+    def iter_text(it):
+        if isinstance(it, ast.Name):
+            v = inline_locals(fn, it)
+            return unparse(v)
+        return unparse(it)
+    if isinstance(e, ast.Name):
+        defs = [st for st in walk_no_nested(fn) if isinstance(st, ast.Assign) and len(st.targets) == 1 and isinstance(st.targets[0], ast.Name)
+                and st.targets[0].id == e.id]
+        apps = [c for c in walk_no_nested(fn) if isinstance(c, ast.Call) and isinstance(c.func, ast.Attribute) and c.func.attr == "append"
+                and unparse(c.func.value) == e.id and len(c.args) == 1]
+        if len(defs) == 1 and isinstance(defs[0].value, (ast.ListComp,)):
+            return _name_list(fn, defs[0].value)
+        if len(defs) == 1 and isinstance(defs[0].value, ast.List) and not defs[0].value.elts and len(apps) == 1:
+            loop = enclosing(apps[0], ast.For)
+            if loop is not None and isinstance(loop.target, ast.Name) and parent(stmt_of(apps[0])) is loop:
+                return norm(apps[0].args[0], loop.target.id), iter_text(loop.iter), "loop + append"
+        return None, "", "list built in an unrecognised way"
+    if isinstance(e, ast.ListComp) and len(e.generators) == 1 and not e.generators[0].ifs and isinstance(e.generators[0].target, ast.Name):
+        g = e.generators[0]
+        return unparse(e.elt).replace(g.target.id, "_SRC"), iter_text(g.iter), "comprehension"
+    return None, "", "list built in an unrecognised way"
 
 
 def rule_submodule_contract(ctx, rep: Report, rid="Y2"):
@@ -27,21 +64,23 @@ def rule_submodule_contract(ctx, rep: Report, rid="Y2"):
         raise AnalysisError("wrap_submodule: call to wrap_file not found")
     b = bind_call(wf, sub_call, drop_self=True)
     sub_name = unparse(inline_locals(sub, b["module_name"])) if "module_name" in b else None
-    apps = [c for c in walk_no_nested(wrap) if isinstance(c, ast.Call) and isinstance(c.func, ast.Attribute) and c.func.attr == "append"]
-    main_names = [unparse(inline_locals(wrap, c.args[0])) for c in apps]
-    loopvar = next((l.target.id for l in walk_no_nested(wrap) if isinstance(l, ast.For)), "?")
-    norm_main = [m.replace(loopvar, "_SRC") for m in main_names]
-    norm_sub = (sub_name or "").replace(src_param, "_SRC")
-    rep.add(rid, "initialiser name:main file and submodule derive it from the source path the same way",
-            norm_main == [norm_sub] and "stem" in norm_sub, f"main: {norm_main}, submodule: {norm_sub}", loc)
-    it = next((unparse(l.iter) for l in walk_no_nested(wrap) if isinstance(l, ast.For)), "")
-    rep.add(rid, "main file:one initialiser per additional file, in order", it == f"{func_params(wrap)[1]}[1:]",
-            f"loop over {it}", f"{ci.mod.rel}:{wrap.lineno}")
     main_call = next((c for c in walk_no_nested(wrap) if isinstance(c, ast.Call) and unparse(c.func) == "self.wrap_file"), None)
     mb = bind_call(wf, main_call, drop_self=True) if main_call else {}
-    rep.add(rid, "main file:the submodule list reaches wrap_file", "submodules" in mb and
-            isinstance(mb["submodules"], ast.Name) and any(unparse(c.func.value) == mb["submodules"].id for c in apps),
-            f"submodules={unparse(mb['submodules']) if 'submodules' in mb else None}", f"{ci.mod.rel}:{wrap.lineno}")
+    names_e = mb.get("submodules")
+    elt_norm, it_txt, how = _name_list(wrap, names_e)
+    norm_sub = (sub_name or "").replace(src_param, "_SRC")
+    rep.add(rid, "initialiser name:main file and submodule derive it from the source path the same way",
+            elt_norm == norm_sub and "stem" in norm_sub, f"main: {elt_norm} ({how}), submodule: {norm_sub}", loc)
+    srcs = func_params(wrap)[1]
+    popped = any(isinstance(c, ast.Call) and unparse(c.func) == f"{srcs}.pop" and [unparse(a) for a in c.args] == ["0"] for c in walk_no_nested(wrap))
+    rest_names = {st.targets[0].elts[1].value.id for st in walk_no_nested(wrap) if isinstance(st, ast.Assign) and isinstance(st.targets[0], (ast.Tuple, ast.List))
+                  and len(st.targets[0].elts) == 2 and isinstance(st.targets[0].elts[1], ast.Starred) and isinstance(st.targets[0].elts[1].value, ast.Name)
+                  and unparse(st.value) == srcs}
+    it_ok = it_txt in (f"{srcs}[1:]", f"list({srcs}[1:])", f"tuple({srcs}[1:])") or (popped and it_txt == srcs) or it_txt in rest_names
+    rep.add(rid, "main file:one initialiser per additional file, in order", it_ok,
+            f"names computed over `{it_txt}`", f"{ci.mod.rel}:{wrap.lineno}")
+    rep.add(rid, "main file:the submodule list reaches wrap_file", names_e is not None and elt_norm is not None,
+            f"submodules={unparse(names_e) if names_e is not None else None}", f"{ci.mod.rel}:{wrap.lineno}")
     # 1b. what a file contributes besides the module definition does not depend on whether it is the main file:
     #     only module_def / submodules / submodules_init may be computed under a test of the submodule list
     sp = "submodules" if "submodules" in func_params(wf) else None
@@ -225,6 +264,14 @@ def _mentions(scope, e: ast.AST, dest: str, depth=4) -> bool:
                     if isinstance(st, ast.Assign) and any(isinstance(t, ast.Name) and t.id == x.id for t in st.targets):
                         if _mentions(scope, st.value, dest, depth - 1):
                             return True
+                    if isinstance(st, ast.AugAssign) and isinstance(st.target, ast.Name) and st.target.id == x.id:
+                        if _mentions(scope, st.value, dest, depth - 1):
+                            return True
+                    if isinstance(st, ast.Expr) and isinstance(st.value, ast.Call) and isinstance(st.value.func, ast.Attribute) \
+                            and isinstance(st.value.func.value, ast.Name) and st.value.func.value.id == x.id \
+                            and st.value.func.attr in ("extend", "append", "insert"):
+                        if any(_mentions(scope, a, dest, depth - 1) for a in st.value.args):
+                            return True
                     if isinstance(st, ast.With):
                         for it in st.items:
                             if it.optional_vars is not None and isinstance(it.optional_vars, ast.Name) and it.optional_vars.id == x.id:
@@ -309,7 +356,41 @@ def rule_option_plumbing(ctx, rep: Report, rid="Y3"):
         raise AnalysisError(f"{rep.prop}/{rid}: too few option obligations")
 
 
+def _ns_values(ctx, which: str):
+    """Abstract value of the namespace path the script hands to its wrapper, per spelling class; None when undecided."""
+    prog = ctx.prog
+    rel = SCRIPTS[which]
+    mi, opts, ctor, scope = _script_info(ctx, rel)
+    o = opts.get("--top_module_namespaces")
+    if o is None or ctor is None:
+        return None
+    cls = prog.resolve_class(ctor.func, mi)
+    init = prog.find_method(cls, "__init__")[1]
+    b = bind_call(init, ctor, drop_self=True)
+    p = PLUMBING[which]["--top_module_namespaces"][1]
+    if p not in b:
+        return None
+    av = _args_var(scope)
+    upto = _stmts_before(scope, ctor)
+    out = {}
+    for kind in ("empty", "rel", "abs"):
+        it = _NsInterp(av, o["dest"], kind, dict(mi.functions))
+        try:
+            env: Dict[str, tuple] = {}
+            it.run(upto, env)
+            out[kind] = it.ev(b[p], env)
+        except _Undecided:
+            return None
+    return out
+
+
 def rule_sibling_scripts(ctx, rep: Report, rid="Y4"):
+    vals = {w: _ns_values(ctx, w) for w in SCRIPTS}
+    if all(v is not None for v in vals.values()):
+        rep.add(rid, "both scripts turn --top_module_namespaces into a list by the same normal form", vals["pybind"] == vals["matlab"],
+                f"abstract value per spelling (absent / relative / fully qualified): pybind {vals['pybind']}; matlab {vals['matlab']}",
+                f"{SCRIPTS['matlab']}:1")
+        return
     forms = {}
     for which, rel in SCRIPTS.items():
         mi, opts, ctor, scope = _script_info(ctx, rel)
@@ -329,7 +410,10 @@ def rule_sibling_scripts(ctx, rep: Report, rid="Y4"):
                 if len(rets) == 1 and isinstance(rets[0], ast.Name) and len(h.args.args) == 1:
                     tv, src_scope, src_param = rets[0].id, h, h.args.args[0].arg
         if tv is None:
-            raise AnalysisError(f"{rel}: the list built from --top_module_namespaces is not bound to a variable")
+            rep.add(rid, "both scripts turn --top_module_namespaces into a list by the same normal form", True,
+                    f"not compared: {rel} builds the list in a form neither the abstract interpretation nor the textual comparison covers", f"{rel}:1",
+                    nontrivial=False)
+            return
 
         def norm(node) -> str:
             c = ast.parse(unparse(node)).body[0]
@@ -391,3 +475,219 @@ def rule_source_list_unfiltered(ctx, rep: Report, rid="Y3"):
             rep.add(rid, f"{which}:the source list passed to wrap() is --src split at ';', unfiltered and in order", ok,
                     f"{detail}: a file the caller listed can be dropped or re-ordered before the library sees it, so the "
                     f"script no longer produces what the API produces for the same list", f"{rel}:{c.lineno}")
+
+
+def _stmts_before(scope, node) -> List[ast.stmt]:
+    """The statements executed before `node` on the way from the top of `scope`: at every nesting level (function body,
+    `if __name__ == '__main__':` block, with-block ...) the earlier siblings of the statement that contains it."""
+    out: List[ast.stmt] = []
+    block = list(getattr(scope, "body", []))
+    while True:
+        holder = next((st for st in block if any(x is node for x in ast.walk(st))), None)
+        if holder is None:
+            return out
+        out += block[: block.index(holder)]
+        nxt = None
+        for fld in ("body", "orelse", "finalbody"):
+            blk = getattr(holder, fld, None)
+            if isinstance(blk, list) and any(any(x is node for x in ast.walk(st)) for st in blk if isinstance(st, ast.AST)):
+                nxt = blk
+        if nxt is None:
+            return out
+        block = nxt
+
+
+class _Undecided(Exception):
+    pass
+
+
+class _NsInterp:
+    """Abstract interpretation of the few statements that turn the --top_module_namespaces string into the list handed to
+    the wrapper.  Strings are abstracted to their spelling class - 'empty', 'rel' (`a::b`), 'abs' (`::a::b`) - and lists to
+    (number of leading '' elements, whether named components follow).  Anything else is outside the domain (_Undecided)."""
+
+    def __init__(self, av: str, dest: str, kind: str, helpers: Dict[str, ast.FunctionDef]):
+        self.av, self.dest, self.kind, self.helpers = av, dest, kind, helpers
+
+    @staticmethod
+    def truth(v) -> bool:
+        if v[0] == "str":
+            return v[1] != "empty"
+        if v[0] == "list":
+            return v[1] > 0 or v[2]
+        if v[0] == "bool":
+            return v[1]
+        raise _Undecided("truth value of " + repr(v))
+
+    def ev(self, e, env):
+        if isinstance(e, ast.Attribute) and isinstance(e.value, ast.Name) and e.value.id == self.av and e.attr == self.dest:
+            return ("str", self.kind)
+        if isinstance(e, ast.Constant) and isinstance(e.value, str):
+            return ("str", "empty" if e.value == "" else ("abs" if e.value.startswith("::") else "rel"))
+        if isinstance(e, ast.Constant) and isinstance(e.value, bool):
+            return ("bool", e.value)
+        if isinstance(e, ast.Name):
+            if e.id in env:
+                return env[e.id]
+            raise _Undecided(f"name {e.id}")
+        if isinstance(e, ast.List):
+            if all(isinstance(x, ast.Constant) and x.value == "" for x in e.elts):
+                return ("list", len(e.elts), False)
+            raise _Undecided("list literal " + unparse(e))
+        if isinstance(e, ast.BinOp) and isinstance(e.op, ast.Add):
+            a, b = self.ev(e.left, env), self.ev(e.right, env)
+            if a[0] == "list" and b[0] == "list":
+                return ("list", a[1], True) if a[2] else ("list", a[1] + b[1], b[2])
+            raise _Undecided("+ of " + repr((a, b)))
+        if isinstance(e, ast.UnaryOp) and isinstance(e.op, ast.Not):
+            return ("bool", not self.truth(self.ev(e.operand, env)))
+        if isinstance(e, ast.BoolOp):
+            v = None
+            for x in e.values:
+                v = self.ev(x, env)
+                t = self.truth(v)
+                if (isinstance(e.op, ast.Or) and t) or (isinstance(e.op, ast.And) and not t):
+                    return v
+            return v
+        if isinstance(e, ast.IfExp):
+            return self.ev(e.body if self.truth(self.ev(e.test, env)) else e.orelse, env)
+        if isinstance(e, ast.Compare) and len(e.ops) == 1 and isinstance(e.ops[0], (ast.Eq, ast.NotEq)):
+            a, b = self.ev(e.left, env), self.ev(e.comparators[0], env)
+            if a[0] == "str" and b[0] == "str" and "empty" in (a[1], b[1]):
+                eq = a[1] == b[1]
+                return ("bool", eq if isinstance(e.ops[0], ast.Eq) else not eq)
+            raise _Undecided("comparison " + unparse(e))
+        if isinstance(e, ast.Subscript):
+            v = self.ev(e.value, env)
+            if v[0] == "list" and isinstance(e.slice, ast.Constant) and e.slice.value == 0:
+                if v[1] > 0:
+                    return ("str", "empty")
+                if v[2]:
+                    return ("str", "rel")
+                raise _Undecided("first element of an empty list")
+            if v[0] == "list" and isinstance(e.slice, ast.Slice) and e.slice.upper is None and e.slice.step is None \
+                    and isinstance(e.slice.lower, ast.Constant) and e.slice.lower.value == 1 and v[1] > 0:
+                return ("list", v[1] - 1, v[2])
+            raise _Undecided("subscript " + unparse(e))
+        if isinstance(e, ast.ListComp) and len(e.generators) == 1 and isinstance(e.generators[0].target, ast.Name) \
+                and isinstance(e.elt, ast.Name) and e.elt.id == e.generators[0].target.id:
+            g = e.generators[0]
+            v = self.ev(g.iter, env)
+            if v[0] == "list" and len(g.ifs) == 1 and isinstance(g.ifs[0], ast.Name) and g.ifs[0].id == g.target.id:
+                return ("list", 0, v[2])
+            if v[0] == "list" and not g.ifs:
+                return v
+            raise _Undecided("comprehension " + unparse(e))
+        if isinstance(e, ast.Call):
+            if isinstance(e.func, ast.Name) and e.func.id in ("list", "tuple") and len(e.args) == 1:
+                return self.ev(e.args[0], env)
+            if isinstance(e.func, ast.Name) and e.func.id in self.helpers and not e.keywords:
+                h = self.helpers[e.func.id]
+                ps = [a.arg for a in h.args.args]
+                if len(ps) != len(e.args):
+                    raise _Undecided("helper arity")
+                henv = {p_: self.ev(a, env) for p_, a in zip(ps, e.args)}
+                r = self.run(h.body, henv)
+                if r is None:
+                    raise _Undecided("helper without return")
+                return r
+            if isinstance(e.func, ast.Attribute):
+                recv = self.ev(e.func.value, env)
+                m = e.func.attr
+                sep = [a.value for a in e.args if isinstance(a, ast.Constant)]
+                if recv[0] == "str" and m == "split" and sep == ["::"]:
+                    return {"empty": ("list", 1, False), "rel": ("list", 0, True), "abs": ("list", 1, True)}[recv[1]]
+                if recv[0] == "str" and m == "startswith" and sep in (["::"], [":"]):
+                    return ("bool", recv[1] == "abs")
+                if recv[0] == "str" and m in ("lstrip", "strip") and sep == [":"]:
+                    return ("str", "rel" if recv[1] == "abs" else recv[1])
+                if recv[0] == "str" and m == "removeprefix" and sep == ["::"]:
+                    return ("str", "rel" if recv[1] == "abs" else recv[1])
+                if recv[0] == "str" and m == "strip" and not e.args:
+                    return recv
+            raise _Undecided("call " + unparse(e)[:50])
+        raise _Undecided(type(e).__name__ + " " + unparse(e)[:50])
+
+    def run(self, stmts, env):
+        """Executes assignments to names and `if`s; returns the abstract value of the first `return` reached."""
+        for st in stmts:
+            if isinstance(st, ast.Assign) and len(st.targets) == 1 and isinstance(st.targets[0], ast.Name):
+                try:
+                    env[st.targets[0].id] = self.ev(st.value, env)
+                except _Undecided:
+                    env.pop(st.targets[0].id, None)      # not a value of the domain: only matters if it is read later
+            elif isinstance(st, ast.AugAssign) and isinstance(st.target, ast.Name) and isinstance(st.op, ast.Add):
+                if st.target.id in env:
+                    env[st.target.id] = self.ev(ast.BinOp(left=ast.Name(id=st.target.id, ctx=ast.Load()), op=ast.Add(), right=st.value), env)
+            elif isinstance(st, ast.Expr) and isinstance(st.value, ast.Call) and isinstance(st.value.func, ast.Attribute) \
+                    and isinstance(st.value.func.value, ast.Name) and st.value.func.value.id in env \
+                    and st.value.func.attr in ("insert", "append", "extend", "pop", "remove"):
+                v = env[st.value.func.value.id]
+                a = st.value
+                if a.func.attr == "insert" and len(a.args) == 2 and isinstance(a.args[0], ast.Constant) and a.args[0].value == 0 \
+                        and isinstance(a.args[1], ast.Constant) and a.args[1].value == "" and v[0] == "list":
+                    env[st.value.func.value.id] = ("list", v[1] + 1, v[2])
+                elif a.func.attr == "pop" and len(a.args) == 1 and isinstance(a.args[0], ast.Constant) and a.args[0].value == 0 and v[0] == "list" and v[1] > 0:
+                    env[st.value.func.value.id] = ("list", v[1] - 1, v[2])
+                elif a.func.attr == "extend" and len(a.args) == 1 and v[0] == "list":
+                    w = self.ev(a.args[0], env)
+                    env[st.value.func.value.id] = ("list", v[1], True) if v[2] else ("list", v[1] + w[1], w[2])
+                else:
+                    raise _Undecided("list update " + unparse(st)[:50])
+            elif isinstance(st, ast.If):
+                uses = {x.id for x in ast.walk(st) if isinstance(x, ast.Name)}
+                touches = any(isinstance(x, ast.Attribute) and x.attr == self.dest for x in ast.walk(st)) or (uses & set(env))
+                if not touches:
+                    continue
+                try:
+                    t = self.truth(self.ev(st.test, env))
+                except _Undecided:
+                    # a test over something else (another option): both branches must leave the tracked values alone
+                    stored = {x.id for b_ in st.body + st.orelse for x in ast.walk(b_) if isinstance(x, ast.Name) and isinstance(x.ctx, ast.Store)}
+                    if stored & set(env):
+                        raise
+                    continue
+                r = self.run(st.body if t else st.orelse, env)
+                if r is not None:
+                    return r
+            elif isinstance(st, ast.Return) and st.value is not None:
+                return self.ev(st.value, env)
+        return None
+
+
+def rule_namespace_normal_form(ctx, rep: Report, rid="Y6"):
+    """Whatever way the top namespace is spelt on the command line - not at all, relative (`gtsam::sub`) or fully
+    qualified (`::gtsam::sub`) - the wrapper receives the path the library API expects: exactly one leading '' (the
+    global namespace) followed by the named components.  Decided by abstract interpretation of the script's own statements
+    over the three spelling classes; two leading '' (or none) match no namespace and the script silently writes an
+    empty module."""
+    prog = ctx.prog
+    for which, rel in SCRIPTS.items():
+        mi, opts, ctor, scope = _script_info(ctx, rel)
+        o = opts.get("--top_module_namespaces")
+        if o is None or ctor is None:
+            raise AnalysisError(f"{rel}: --top_module_namespaces / wrapper construction not found")
+        cls = prog.resolve_class(ctor.func, mi)
+        init = prog.find_method(cls, "__init__")[1]
+        b = bind_call(init, ctor, drop_self=True)
+        p = PLUMBING[which]["--top_module_namespaces"][1]
+        if p not in b:
+            raise AnalysisError(f"{rel}: constructor parameter {p} not passed")
+        av = _args_var(scope)
+        upto = _stmts_before(scope, ctor)
+        for kind, example in (("empty", "(option absent)"), ("rel", "gtsam::sub"), ("abs", "::gtsam::sub")):
+            it = _NsInterp(av, o["dest"], kind, dict(mi.functions))
+            try:
+                env: Dict[str, tuple] = {}
+                it.run(upto, env)
+                v = it.ev(b[p], env)
+            except _Undecided as e:
+                rep.add(rid, f"{which}:--top_module_namespaces {example}:exactly one leading global namespace", True,
+                        f"not decided: {e} is outside the abstract domain", f"{rel}:{ctor.lineno}", nontrivial=False)
+                continue
+            want = ("list", 1, kind != "empty")
+            rep.add(rid, f"{which}:--top_module_namespaces {example}:exactly one leading global namespace", v == want,
+                    f"the wrapper receives a path with {v[1] if v[0] == 'list' else '?'} leading '' component(s)"
+                    f"{' followed by the named components' if v[0] == 'list' and v[2] else ''} (abstract value {v}); the library API expects "
+                    f"['', 'gtsam', 'sub'] - with any other form no namespace of the input matches and an empty module is written without a word",
+                    f"{rel}:{ctor.lineno}")
